@@ -35,6 +35,7 @@ pub fn check_ctx(ctx: &CaseCtx) -> Outcome {
             "static": s.static_hints, "dynamic": s.dynamic_hints, "mandatory_edges": s.mandatory_edges_seen,
             "pruned_by_static": s.pruned_by_static, "pruned_by_dynamic": s.pruned_by_dynamic,
             "pruned_by_mandatory_edge": s.pruned_by_mandatory_edge, "undecidable": s.undecidable_memberships,
+            "lookahead_plans": s.lookahead_plans, "pruned_by_lookahead": s.pruned_by_lookahead,
         });
     }
     match res {
@@ -42,7 +43,9 @@ pub fn check_ctx(ctx: &CaseCtx) -> Outcome {
             if rows != baseline {
                 let s = stats.borrow();
                 let culprit = if rows.len() < baseline.len() { "rows-lost" } else { "rows-differ" };
-                let by = if s.pruned_by_dynamic > 0 && s.pruned_by_static == 0 && s.pruned_by_mandatory_edge == 0 {
+                let by = if s.pruned_by_lookahead > 0 {
+                    "lookahead-hint"
+                } else if s.pruned_by_dynamic > 0 && s.pruned_by_static == 0 && s.pruned_by_mandatory_edge == 0 {
                     "dynamic-hint"
                 } else if s.pruned_by_static > 0 && s.pruned_by_dynamic == 0 && s.pruned_by_mandatory_edge == 0 {
                     "static-hint"
@@ -130,6 +133,8 @@ pub fn handle(report: &mut Report, ctx: &CaseCtx) {
             }
         }
         report.add("hint:mandatory-edge", obj.get("mandatory_edges").and_then(|x| x.as_u64()).unwrap_or(0));
+        report.add("hint:lookahead-plans", obj.get("lookahead_plans").and_then(|x| x.as_u64()).unwrap_or(0));
+        report.add("vertices_pruned_by_lookahead_hints", obj.get("pruned_by_lookahead").and_then(|x| x.as_u64()).unwrap_or(0));
     }
     match o.err {
         None => {
